@@ -511,10 +511,21 @@ def get_slice(ex, state, v, lo, hi, step):
         ht = ex.num(h) if h is not None and not isinstance(h, VNoneT) else None
         if isinstance(a, (VBytes, VStr)):
             n = z3.Length(a.t)
-            l2, h2 = clamp_slice(lt, ht, n)
-            ln = simp(z3.If(h2 > l2, h2 - l2, z3.IntVal(0)))
+            # bounds that are provably inside [0, n] need no clamping (keeps the terms small)
+            if lt is not None and not z3.is_int_value(simp(lt)) and ex.prove_quick(state, z3.And(lt >= 0, lt <= n)):
+                l2 = lt
+            else:
+                l2 = clamp_slice(lt, None, n)[0]
+            if ht is not None and not z3.is_int_value(simp(ht)) and ex.prove_quick(state, z3.And(ht >= 0, ht <= n)):
+                h2 = ht
+            else:
+                h2 = clamp_slice(None, ht, n)[1]
+            if ex.prove_quick(state, h2 >= l2):
+                ln = simp(h2 - l2)
+            else:
+                ln = simp(z3.If(h2 > l2, h2 - l2, z3.IntVal(0)))
             t = z3.Extract(a.t, l2, ln)
-            return type(a)(simp(t))
+            return type(a)(t)
         if isinstance(a, VTuple):
             lv = ival(lt) if lt is not None else None
             hv = ival(ht) if ht is not None else None
